@@ -86,7 +86,51 @@ def check_class(pres, w):
     return True
 
 
+def scene_regime(rng, cfg, regime):
+    """Two further in-class regimes (every detection present in every frame, identity must be kept):
+    'fast_small'  animals ~1000 px apart, bodies 8 x 10 px, one nearly stationary, the others jumping
+                  up to 5 px per axis around their home (OKS of the right track is tiny but positive,
+                  of the wrong track exactly 0; distances 10 against 1000);
+    'thin'        two-keypoint animals on one row / in one column (zero-height / zero-width boxes),
+                  moving along their own axis by less than their length."""
+    K = rng.randint(3, 4) if regime == "fast_small" else rng.randint(2, 4)
+    Fr = rng.randint(3, 8)
+    sp = 1000 if regime == "fast_small" else SPACING
+    home = [(F((a % 2) * sp + 32), F((a // 2) * sp + 32)) for a in range(K)]
+    shapes = ["tri"] * K if regime == "fast_small" else [rng.choice(["hline", "vline"]) for _ in range(K)]
+    still = rng.randrange(K)
+    hop = [(F(rng.randrange(16, 33), 8), F(rng.randrange(16, 33), 8)) for _ in range(K)]
+    if regime == "fast_small" and rng.random() < 0.6:
+        cfg["window"] = 1               # with a longer window the candidate from two frames back scores ~1
+    hist = []
+    for f in range(Fr):
+        fr = []
+        for a in range(K):
+            if regime == "fast_small":
+                if a == still:
+                    dx, dy = F(rng.randrange(-1, 2), 8), F(rng.randrange(-1, 2), 8)
+                else:                                              # hops between two spots 4..8 px apart (per axis)
+                    sgn = 1 if (f + a) % 2 else -1
+                    dx = sgn * hop[a][0] + F(rng.randrange(-2, 3), 8)
+                    dy = sgn * hop[a][1] + F(rng.randrange(-2, 3), 8)
+                size = 2
+            else:
+                t = F(rng.randrange(-24, 25), 8)                   # +-3 px along the animal's own axis
+                dx, dy = (t, F(0)) if shapes[a] == "hline" else (F(0), t)
+                size = SIZE
+            fr.append({"uid": a, "animal": a, "x": home[a][0] + dx, "y": home[a][1] + dy, "score": F(1), "size": size,
+                       "shape": shapes[a]})
+        rng.shuffle(fr)
+        hist.append(fr)
+    return hist, [[True] * K for _ in range(Fr)]
+
+
 def scene(rng, cfg):
+    r = rng.random()
+    if r < (0.35 if cfg["features"] == "keypoints" else 0.12) and cfg["features"] != "bboxes":
+        return scene_regime(rng, cfg, "fast_small")
+    if r < 0.30 and cfg["features"] == "bboxes":
+        return scene_regime(rng, cfg, "thin")
     K = rng.randint(1, 4)
     Fr = rng.randint(2, 12)
     w = cfg["window"]
@@ -288,7 +332,7 @@ def check(run: core.Run) -> int:
     run.coverage["code_behaviour"] = fixes
 
     cases = [c for _, _, c in corpus_cases()]
-    n_scenes = 3000 if thorough else 150
+    n_scenes = 3000 if thorough else 240
     combos = [(lq, gr, feat) for lq in (False, True) for gr in (False, True) for feat in cc.FEATURES]
     worst_step = 0.0
     i = 0
